@@ -184,14 +184,17 @@ CLAIMS = {
     "C17": dict(
         technique="Lean 4 theorems on the regularisers assembled from the C12 stencil model, lame_parameters, "
                   "inverse_consistency_loss units + correspondence over regularisers x modes x spacings x reductions",
-        text="24 theorems: bending/curvature vanish on affine fields (margin-2 interior for padded schemes, everywhere for "
-             "forward_central_backward) and are invariant under adding one; gradient terms vanish for translations and take "
-             "their closed forms on affine fields; non-negativity; quadratic scaling; spacing powers; linear transforms give "
-             "zero; reductions; seven elastic-constant pairs round-trip; inverse consistency of exact "
-             "inverse pairs is zero with the right unit factors; B-spline bending/elasticity are the analytic ones. Seven defects "
-             "(lame_parameters x2, inverse-consistency units and mask/sum, elasticity stride and shape) were repaired by fix: "
-             "commits; 17 known-finding keys remain, all one family: padded one-sided/central/Gaussian stencils give non-zero "
-             "boundary energies on affine fields (refuted by C17_bending_default_affine_refuted).",
+        text="26 theorems: bending/curvature vanish on affine fields at EVERY grid point for the default mode, sobel, "
+             "prewitt and forward_central_backward (any D, size >= 2, any spacing; margin-2 interior for the padded one-sided "
+             "schemes), reduced losses are 0 and adding an affine field changes nothing there; gradient terms vanish for "
+             "translations and take their closed forms on affine fields at every point in those modes; non-negativity; "
+             "quadratic scaling; spacing powers; linear transforms give zero; reductions; seven elastic-constant pairs "
+             "round-trip; inverse consistency of exact inverse pairs is zero with the right unit factors; B-spline "
+             "bending/elasticity are the analytic ones. Twelve defect keys (lame_parameters x2, inverse-consistency units and "
+             "mask/sum, elasticity stride and shape, zero-padded sobel/prewitt averaging = the default mode) were repaired by "
+             "fix: commits; 12 known-finding keys remain, one family: the explicitly requested one-sided / central / Gaussian "
+             "stencils replicate-pad the signal and give wrong boundary values on affine fields (refuted by "
+             "C17_bending_forward_affine_refuted, C17_grad_forward_affine_refuted).",
         ref="5 C17"),
     "C18": dict(
         technique="Lean 4 theorems on models of the MetaImage header grammar, channel axis shuffle, NIfTI affine/LPS-RAS and "
